@@ -22,17 +22,41 @@ ASSUMPTIONS = [
     "model replay and oracle cover the ordinary products), a constant hashed PythonNode dependency; successive builds of one history run under different PYTHONHASHSEEDs",
     "generated projects also pass some dependencies inside one dict / list / tuple argument together with plain Python values (same dependency set), "
     "and place some task modules in sub-directories that carry a pyproject.toml without a pytask section",
+    "generated projects also contain hashed Python values built from several input files read at import (tuple / list / positions [0][1],[1][0] of one "
+    "container) with edits that exchange the files' contents (equal digit counts: the separator-less join of finding F3 is replayed as its own witness), "
+    "an untracked fail-flag file that makes a body raise before writing, and a stream of projects passing a value through a hashed in-memory node",
 ]
 EDITS = ["write", "write", "revert", "rewrite_same", "touch", "delete_input", "bump", "revert_module", "tamper", "delete_product",
-         "rewire", "add_task", "remove_task"]
+         "rewire", "add_task", "remove_task", "flag", "flag", "swap", "swap"]
 CFGS = [{}, {}, {}, {"force": True}, {"dry": True}, {"maxfail": 1}, {"k": "task_t00x"}, {"k": "task_t01x or task_t02x"}, {"m": "markone"}]
+
+
+def _group_values(t, rec):
+    g = t.get("pyhash_group") or {}
+    if g.get("kind") not in ("tuple", "list"):
+        return None
+    deps = [n for n in g.get("deps", []) if n in t["deps"]]
+    if len(deps) < 2:
+        return None
+    return tuple(rec["pre"].get(n) for n in deps)
 
 
 def oracle(hist, records):
     bad = []
+    seen_groups = {}     # task id -> value tuples its hashed group held at earlier builds
+    for rec in records:
+        if rec["step"][0] == "build":
+            for t in rec["spec"]["tasks"]:
+                gv = _group_values(t, rec)
+                if gv is not None and None not in gv:
+                    rec.setdefault("_gv", {})[t["id"]] = gv
+    last_gv = {}
     for rec in records:
         if rec["step"][0] != "build":
             continue
+        for tid, gv in last_gv.items():          # group values seen at the builds before this one
+            seen_groups.setdefault(tid, set()).add(gv)
+        last_gv = rec.get("_gv", {})
         spec, obs, cfg = rec["spec"], rec["obs"], rec["cfg"]
         if obs.get("raised"):
             bad.append(("returns", f"build raised {obs['raised']}", None))
@@ -50,6 +74,16 @@ def oracle(hist, records):
             for p in t["prods"]:
                 if rec["post"].get(p) != want.get(p):
                     out = engine.outcomes(obs).get(t["id"])
+                    # finding F3 (C12) seen from C02: the items of a hashed tuple / list are joined without separator, so a change of
+                    # numeric items that keeps the concatenated digits (4,44 -> 44,4) keeps the state: narrow class = the task is
+                    # reported unchanged, owns such a group, and an earlier build saw other group values with the same digit string
+                    gv = rec.get("_gv", {}).get(t["id"])
+                    f3 = (out == "SKIP_UNCHANGED" and gv is not None and
+                          any(o != gv and "".join(map(str, o)) == "".join(map(str, gv)) for o in seen_groups.get(t["id"], ())))
+                    if f3:
+                        bad.append(("scratch-F3", f"hashed {t['pyhash_group']['kind']} {gv} has the state of an earlier {sorted(seen_groups[t['id']])}: task {t['id']} "
+                                                  f"reported unchanged, product n{p} holds {rec['post'].get(p)}, from scratch {want.get(p)}", "F3"))
+                        continue
                     bad.append(("scratch", f"build reported success but product n{p} of task {t['id']} ({out}) holds {rec['post'].get(p)}; "
                                            f"a from-scratch build gives {want.get(p)} (steps {[s[:3] if s[0] != 'respec' else ['respec'] for s in hist['steps']]})", None))
     return bad
@@ -126,12 +160,134 @@ def f11b_witness(ctx):
             print("FINDING (not yet in known_findings.json, see findings/F11b.json): property=C02 F11b: " + what[:200])
 
 
+# --------------------------------------------------------------------------------------------------
+# stream "memhash" (implementation-only oracle; the engine model has no in-memory nodes): a value travels from a producer task to
+# consumer tasks through ONE hashed in-memory node, `PythonNode(name=..., hash=True)`, declared as product of the producer
+# (saved through the node or returned) and as dependency of the consumers. Inputs of the producer are edited between builds while
+# the consumers' modules stay as they are. After every build that reports success, every consumer's file must hold what a
+# from-scratch build computes from the current inputs.
+# --------------------------------------------------------------------------------------------------
+MEMHASH_RUN = ("import json, sys\nfrom pathlib import Path\nroot = Path(sys.argv[1])\nsys.path.insert(0, str(root))\nimport pytask\n"
+               "s = pytask.build(paths=[root])\n"
+               "print('@@' + json.dumps({'exit': int(s.exit_code), 'reports': [[r.task.name.split('::')[-1], r.outcome.name] for r in s.execution_reports]}))\n")
+
+
+def _memhash_project(rng):
+    nin = rng.randint(1, 2)
+    ncons = rng.randint(1, 2)
+    style = rng.choice(["save", "return"])
+    same_module = rng.random() < 0.4
+    coef = [rng.randint(2, 9) for _ in range(nin)]
+    mul = [rng.randint(2, 9) for _ in range(ncons)]
+    head = "from pathlib import Path\nfrom typing import Annotated\nfrom pytask import Product\nfrom _shared import NODE\nHERE = Path(__file__).parent\n"
+    ins = ", ".join(f"i{k}: Path = HERE / 'in{k}.txt'" for k in range(nin))
+    expr = " + ".join(f"{coef[k]} * int(i{k}.read_text())" for k in range(nin))
+    if style == "save":
+        prod = f"def task_make(*, {ins}, node: Annotated[object, NODE, Product]):\n    node.save({expr})\n"
+    else:
+        prod = f"def task_make(*, {ins}) -> Annotated[int, NODE]:\n    return {expr}\n"
+    cons = [f"def task_use{j}(*, val: Annotated[int, NODE], out: Annotated[Path, Product] = HERE / 'out{j}.txt'):\n    out.write_text(str(val * {mul[j]} + {j}))\n"
+            for j in range(ncons)]
+    files = {"_shared.py": "from pytask import PythonNode\nNODE = PythonNode(name='shared-value', hash=True)\n"}
+    if same_module:
+        files["task_all.py"] = head + "\n\n" + prod + "\n\n" + "\n\n".join(cons)
+    else:
+        files["task_make.py"] = head + "\n\n" + prod
+        for j, c in enumerate(cons):
+            files[f"task_use{j}.py"] = head + "\n\n" + c
+    inputs = [rng.randint(1, 50) for _ in range(nin)]
+    steps = ["build"]
+    for _ in range(rng.randint(2, 4)):
+        r = rng.random()
+        steps.append(["edit", rng.randrange(nin), rng.randint(51, 999)] if r < 0.55 else (["touch", rng.randrange(nin)] if r < 0.7 else "build"))
+    steps.append("build")
+    steps = [x for i, x in enumerate(steps) if not (x == "build" and i and steps[i - 1] == "build" and rng.random() < 0.5)]
+    return {"files": files, "inputs": inputs, "coef": coef, "mul": mul, "steps": steps, "style": style}
+
+
+def _memhash_run(proj):
+    root = common.scratch_dir("c02m")
+    obs = []
+    try:
+        for name, text in proj["files"].items():
+            (root / name).write_text(text)
+        cur = list(proj["inputs"])
+        t = 1_600_000_000
+        for k, v in enumerate(cur):
+            (root / f"in{k}.txt").write_text(str(v))
+        for st in proj["steps"]:
+            if st == "build":
+                r = subprocess.run([common.PY, "-c", MEMHASH_RUN, str(root)], capture_output=True, text=True, cwd="/", timeout=300)
+                res = next((json.loads(l[2:]) for l in r.stdout.splitlines() if l.startswith("@@")), None)
+                if res is None:
+                    raise common.InfraError("memhash build produced no result: " + (r.stdout + r.stderr)[-300:])
+                outs = [((root / f"out{j}.txt").read_text() if (root / f"out{j}.txt").exists() else None) for j in range(len(proj["mul"]))]
+                obs.append({"inputs": list(cur), "res": res, "outs": outs})
+            else:
+                k = st[1]
+                if st[0] == "edit":
+                    cur[k] = st[2]
+                t += 7
+                import os
+                (root / f"in{k}.txt").write_text(str(cur[k]))
+                os.utime(root / f"in{k}.txt", (t, t))
+    finally:
+        shutil.rmtree(root, ignore_errors=True)
+    return obs
+
+
+def memhash_stream(ctx):
+    from concurrent.futures import ThreadPoolExecutor
+    projs = [_memhash_project(ctx.rng) for _ in range(ctx.scale(6, 60))]
+    with ThreadPoolExecutor(max_workers=6) as ex:
+        allobs = list(ex.map(_memhash_run, projs))
+    for proj, obs in zip(projs, allobs):
+        edited = any(isinstance(s, list) and s[0] == "edit" for s in proj["steps"])
+        ctx.case(["memhash", proj["files"], proj["inputs"], proj["steps"]], edited and len(obs) >= 2,
+                 {"stream": "memhash", "style": proj["style"], "steps": proj["steps"], "builds": [[o["res"]["exit"], o["res"]["reports"]] for o in obs]})
+        ctx.dist["memhash"] += 1
+        for o in obs:
+            if o["res"].get("exit") != 0:
+                ctx.violation(f"returns: memhash project: build exits with {o['res'].get('exit')} {o['res'].get('reports')}", {"memhash": proj, "layer": "engine-e2e"})
+                break
+            val = sum(c * v for c, v in zip(proj["coef"], o["inputs"]))
+            want = [str(val * m + j) for j, m in enumerate(proj["mul"])]
+            if o["outs"] != want:
+                ctx.violation(f"scratch: value passed through a hashed in-memory node: build reported {o['res']['reports']} with exit 0 but the consumers' files hold "
+                              f"{o['outs']}; a from-scratch build of inputs {o['inputs']} gives {want} (steps {proj['steps']})", {"memhash": proj, "layer": "engine-e2e"})
+                break
+
+
+# --------------------------------------------------------------------------------------------------
+# finding F3 (C12) seen from C02: hash_value joins the items of a tuple / list without separator, so the hashed tuple (4, 44) read
+# from two input files keeps its state when the files exchange their contents (44, 4): the consumer is SKIP_UNCHANGED and its
+# product stale. The witness is replayed on the real code on every run (oracle only: the model's state is the content).
+# --------------------------------------------------------------------------------------------------
+F3_HISTORY = {"tag": "F3-witness", "spec": {"tasks": [{"id": 0, "module": 0, "deps": [100, 101], "prods": [110], "after": [], "marks": [], "beh": "ok",
+                                                       "style": "default", "pyhash_group": {"kind": "tuple", "deps": [100, 101]}}],
+                                            "versions": {"0": 0}, "inputs": {"100": 4, "101": 44}, "nodelete": [100, 101]},
+              "steps": [["build", {}], ["write", 100, 44], ["write", 101, 4], ["build", {}]]}
+
+
+def f3_witness(ctx):
+    from impl import builder
+    pool = builder.Pool([ctx.rng.randrange(1, 4_000_000_000)])
+    try:
+        recs = engine.run_history(pool.pick(0), F3_HISTORY)
+    finally:
+        pool.close()
+    ctx.case(["F3-witness"], True, {"witness": "F3", "builds": [[r["obs"].get("exit"), r["obs"].get("reports")] for r in recs if r["step"][0] == "build"]})
+    ctx.dist["f3_witness"] += 1
+    for kind, msg, finding in oracle(F3_HISTORY, recs):
+        ctx.violation(f"{kind}: {msg}", {"history": F3_HISTORY, "layer": "engine-e2e"}, finding=finding)
+
+
 def histories(ctx):
     rng = ctx.rng
     hs = []
     for i in range(ctx.scale(70, 800)):
         spec = engine.gen_spec(rng, nt=(2, 7), after_p=0.2, after_needs_prods=True, user_markers=True, marks=(("skip", 0.05),),
-                               link_p=0.3, dirprod_p=0.3, hashed_p=0.25, bag_p=0.3, subdir_p=0.3)
+                               link_p=0.3, dirprod_p=0.3, hashed_p=0.25, bag_p=0.3, subdir_p=0.3, pygroup_p=0.25)
         hs.append(histgen.random_history(rng, spec, rng.randint(4, 10), EDITS, CFGS, final_build={}))
     return hs
 
@@ -147,10 +303,21 @@ def run(ctx):
                 "identical rewrite / touch / delete input, bump / revert module, tamper / delete product, rewire dependency, add / remove task), final plain build; "
                 "oracle = product bytes vs F evaluated from scratch along the DAG; non-trivial = ≥2 builds, ≥1 edit and a later successful build that executed something")
     f11b_witness(ctx)
+    f3_witness(ctx)
+    memhash_stream(ctx)
     engine.run_campaign(ctx, histories(ctx), oracle, nontrivial=nontrivial, sel_eval=engine.sel_eval, rotate_seeds=True)
 
 
 def replay(ctx, obj):
+    if obj.get("input", {}).get("memhash"):
+        proj = obj["input"]["memhash"]
+        obs = _memhash_run(proj)
+        for o in obs:
+            val = sum(c * v for c, v in zip(proj["coef"], o["inputs"]))
+            want = [str(val * m + j) for j, m in enumerate(proj["mul"])]
+            if o["res"].get("exit") != 0 or o["outs"] != want:
+                return False, f"memhash project: build {o['res']} leaves {o['outs']}, from scratch {want}"
+        return True, "consumers of the hashed in-memory value hold the from-scratch contents after every build"
     if obj.get("input", {}).get("witness") == "F11b":
         f11b_witness(ctx)
         if ctx.violations:
